@@ -21,8 +21,12 @@ def run(ctx):
     ok = ctx.check_theorems()
     if not ok:
         ctx.broken_obligation('Properties_C15.vo', getattr(ctx, 'broken', {}))
-    E = Engine(ctx)
+    E = Engine(ctx, with_gen_api=True)
     rng = ctx.rng
+    if ctx.replay_in:
+        from .builder_engine import replay
+        replay(E, ctx)
+        return
     cases = []
     nested_schemas = [s for s in E.corpus if s.name in ('bnest', 'bmixd') and s.name in E.BC]
     n = 420 if not ctx.thorough else 4000
@@ -31,6 +35,9 @@ def run(ctx):
             md = rng.choice([2, 3, 3, 4]) if not ctx.thorough else rng.choice([2, 3, 4, 6, 8])
             c = E.make_case(rng, s, maxdepth=md, size=rng.choice([0.3, 1.0]), klass='nested')
             cases.append(c)
+        # nested struct roots through the GENERATED <field>_create_as_root (create_buffer with is_nested, no start_buffer)
+        for i in range(n // 3):
+            cases.append(E.make_case(rng, s, maxdepth=rng.choice([2, 3]), size=rng.choice([0.3, 1.0]), klass='nested-generated-api', gen_api=True))
     E.run_builds(cases)
     ver_items, ver_meta, dump_items, dec_lines, dec_meta = [], [], [], [], []
     nnested = 0
@@ -89,11 +96,16 @@ def run(ctx):
     for (name, line), (c, path, v, nb, _), r, (_, dline), d in zip(ver_items, ver_meta, vres, dump_items, dres):
         base = {'harness_line': c.h, 'schema': name, 'path': path, 'nested_hex': nb.hex(), 'verify_line': line}
         kind = ('struct' if v.a in c.schema.structs else 'table') + ('-sized' if v.c['with_size'] else '')
+        sized_aligned = bu.has_sized_nested_aligned(c.schema, v.b)
         if r is None or d is None: continue
         if r.startswith('CRASH') or d.startswith('CRASH'):
             ctx.violation('nested-standalone-crash:' + kind, 'sanitizer report while verifying / reading an extracted nested buffer: ' + (r + d)[:300], base); continue
         if not r.startswith('0 '):
-            ctx.violation('nested-standalone-rejected:%s:%s' % (kind, '_'.join(r.split()[1:])),
+            # one key for the size-prefixed nested layout whatever alignment test of the verifier trips over it
+            err = '_'.join(r.split()[1:])
+            ctx.violation('nested-standalone-rejected:contains-nested-with-size:' + err
+                          if (sized_aligned and err in ('vector_header_out_of_range_or_unaligned', 'struct_unaligned')) else
+                          'nested-standalone-rejected:%s:%s' % (kind, err),
                           'nested buffer %s copied out of the parent is rejected by the generated verifier of its root type: %s' % (path, r), base)
         exp = bu.render_dump(c.schema, v.b, v.a)
         if d != exp:
